@@ -382,8 +382,13 @@ def transform_and_slice_picture(codec_features, picture):
     set_coding_parameters(state, codec_features["video_parameters"])
 
     # NB: picture_encode corrupts the supplied picture arrays so a copy is
-    # provided here
-    picture_encode(state, deepcopy(picture))
+    # provided here. Rows are copied individually since deepcopy preserves any
+    # sharing of row objects within the supplied picture (e.g. [[0] * w] * h)
+    # and picture_encode must be able to modify every row independently.
+    picture_encode(
+        state,
+        {c: [deepcopy(row) for row in picture[c]] for c in ["Y", "C1", "C2"]},
+    )
 
     # Perform DC prediction
     if codec_features["profile"] == Profiles.low_delay:
